@@ -189,6 +189,18 @@ func (t *cellTr) composite(cl *ast.CompositeLit) cval {
 	if tn == "Element" {
 		return t.montLit(cl)
 	}
+	if tn == "MontgomeryDomainFieldElement" && len(cl.Elts) == 4 {
+		// a local limb array of constants (the coordinates of the base point): only usable as the source of a copy
+		var lits []string
+		for _, l := range cl.Elts {
+			v, ok := constExpr(l)
+			if !ok {
+				t.fail(cl, "non-constant limb")
+			}
+			lits = append(lits, v)
+		}
+		return cval{kind: "limbs", expr: "F.ofMont " + strings.Join(lits, " ")}
+	}
 	t.fail(cl, "composite literal "+tn)
 	return cval{}
 }
@@ -281,6 +293,25 @@ func (t *cellTr) call(x *ast.CallExpr) cval {
 		}
 	}
 	switch fname {
+	case "copy":
+		// copy(p.E[:], k[:]) with k a local array of four constant limbs: p becomes that constant
+		if len(x.Args) == 2 {
+			ds, ok1 := x.Args[0].(*ast.SliceExpr)
+			ss, ok2 := x.Args[1].(*ast.SliceExpr)
+			if ok1 && ok2 && ds.Low == nil && ds.High == nil && ss.Low == nil && ss.High == nil {
+				if sel, ok := ds.X.(*ast.SelectorExpr); ok && sel.Sel.Name == "E" {
+					dst := t.eval(sel.X)
+					src := t.eval(ss.X)
+					if dst.kind == "ptr" && src.kind == "limbs" {
+						n := t.fresh("k")
+						t.emit(n, src.expr)
+						t.set(dst.c, n)
+						return cval{kind: "unit"}
+					}
+				}
+			}
+		}
+		t.fail(x, "copy")
 	case "New", "newScalar":
 		if len(x.Args) != 0 {
 			t.fail(x, "New arity")
@@ -1044,6 +1075,7 @@ func genCurve(field, scal, root *pkgSrc, out string) {
 		{root, "root", "Element.set", "setRaw", [][]string{{"e"}, {"element"}}, ""},
 		{root, "root", "Element.copy", "copyRaw", nil, ""},
 		{root, "root", "newElement", "newElement", nil, ""},
+		{root, "root", "Element.Base", "base", nil, ""},
 	}, "GenElementAPI", "import Secp.FieldOps", out+"/ElementAPI.lean")
 	genLadder(root, out+"/Ladder.lean")
 	genDecoders(root, out+"/Decode.lean")
